@@ -157,9 +157,10 @@ class Check:
             f"{self.pid} [{self.tier}] instances={len(self.instances)} ok={n_ok} violations={len(new)} known={len(old)} "
             f"unresolved={n_un} advisory={n_ad} modules={len(self.repo.parsed)} wall={wall:.2f}s"
         )
-        if self.errors:
-            return 2
-        return 1 if new else 0
+        # a located violation is reported as such even when, because of it, a rule saw fewer instances than its floor
+        if new:
+            return 1
+        return 2 if self.errors else 0
 
     def _write_evidence(self, wall, new, old):
         EVIDENCE_DIR.mkdir(parents=True, exist_ok=True)
